@@ -196,14 +196,39 @@ pub fn canon_sv(v: &SerializableValue, out: &mut String) {
     }
 }
 
+thread_local! {
+    /// Number of times reading a value back from the heap panicked on this thread (a binding
+    /// that points at a released or foreign cell). Observation code is part of the harness, but
+    /// the panic is the evaluator's data structure failing: it is reported as an observation,
+    /// never as a harness error.
+    pub static OBSERVE_PANICS: Cell<u64> = const { Cell::new(0) };
+}
+
+/// Run harness code that reads evaluator data structures; a panic inside is caught.
+pub fn guarded<T>(f: impl FnOnce() -> T) -> Option<T> {
+    let was = IN_SUT.with(|x| x.replace(true));
+    let r = catch_unwind(AssertUnwindSafe(f));
+    IN_SUT.with(|x| x.set(was));
+    match r {
+        Ok(v) => Some(v),
+        Err(_) => {
+            OBSERVE_PANICS.with(|c| c.set(c.get() + 1));
+            None
+        }
+    }
+}
+
+pub const UNREADABLE: &str = "<unreadable: reading this value back from the heap panics>";
+
 pub fn canon_value(v: &Value, heap: &Heap) -> Option<String> {
-    match SerializableValue::from_value(v, heap) {
-        Ok(sv) => {
+    match guarded(|| SerializableValue::from_value(v, heap)) {
+        Some(Ok(sv)) => {
             let mut s = String::new();
             canon_sv(&sv, &mut s);
             Some(s)
         }
-        Err(_) => None,
+        Some(Err(_)) => None,
+        None => Some(UNREADABLE.to_string()),
     }
 }
 
@@ -281,11 +306,16 @@ impl Session {
     }
 
     pub fn canon_of(&self, v: &Value) -> Option<String> {
-        canon_value(v, &self.heap.borrow())
+        match self.heap.try_borrow() {
+            Ok(h) => canon_value(v, &h),
+            Err(_) => Some(UNREADABLE.to_string()),
+        }
     }
 
     pub fn serializable_of(&self, v: &Value) -> Option<SerializableValue> {
-        SerializableValue::from_value(v, &self.heap.borrow()).ok()
+        // a panic can leave the RefCell borrowed; try_borrow keeps the harness alive
+        let heap = self.heap.try_borrow().ok()?;
+        guarded(|| SerializableValue::from_value(v, &heap).ok()).flatten()
     }
 
     /// Evaluate one source text (one or more statements). Returns one Outcome per
@@ -409,7 +439,10 @@ impl Session {
                         // as main.rs: `output n` reads the binding, `output n = e` uses the result
                         let val = if *is_assign { Some(v) } else { self.env.get(name).or(Some(v)) };
                         if let Some(val) = val {
-                            let ok = validate_portable_value(&val, &self.heap.borrow(), &self.env).is_ok();
+                            let ok = match self.heap.try_borrow() {
+                                Ok(h) => guarded(|| validate_portable_value(&val, &h, &self.env).is_ok()).unwrap_or(false),
+                                Err(_) => false,
+                            };
                             if ok {
                                 let c = self.canon_of(&val);
                                 self.outputs.borrow_mut().insert(name.clone(), c);
